@@ -158,5 +158,3 @@ func hasProp(ps []string, p string) bool {
 }
 
 func cmdList(args []string)   {}
-func cmdCheck(args []string)  {}
-func cmdReplay(args []string) {}
